@@ -36,6 +36,10 @@ import (
 
 type c16Ev map[string]interface{}
 
+// lines of scrollback of the real terminals: more than any scenario can fill, so nothing the
+// terminal accepted may be missing from what it holds at the end
+const c16Scrollback = 900
+
 type c16DrvSpec struct {
 	Order   int    `json:"order"`
 	Kind    string `json:"kind"`
@@ -219,7 +223,7 @@ func c16Scenario1(t *testing.T, enc *json.Encoder, sc *c16Scenario, tag interfac
 		var drv device.Driver
 		switch spec.Kind {
 		case "tty":
-			x := &c16TTY{c16Base: base, vt: tty.NewVT(4, 10)}
+			x := &c16TTY{c16Base: base, vt: tty.NewVT(4, c16Scrollback)}
 			ttys = append(ttys, x)
 			drv = x
 		case "cons":
@@ -294,13 +298,21 @@ func c16Scenario1(t *testing.T, enc *json.Encoder, sc *c16Scenario, tag interfac
 	default:
 		end["sink"] = -1
 	}
-	shown, state, attached := []c16Ev{}, []c16Ev{}, []c16Ev{}
+	shown, state, attached, held := []c16Ev{}, []c16Ev{}, []c16Ev{}, []c16Ev{}
 	for _, x := range ttys {
 		shown = append(shown, c16Ev{"id": x.id, "v": c16Ints(x.recv)})
+		// what the real terminal holds now: its non-blank cells in row-major order
+		cells := []byte{}
+		for _, ch := range x.vt.VerifC16Held() {
+			if ch != ' ' {
+				cells = append(cells, ch)
+			}
+		}
+		held = append(held, c16Ev{"id": x.id, "v": c16Ints(cells)})
 		state = append(state, c16Ev{"id": x.id, "v": int(x.State())})
 		attached = append(attached, c16Ev{"id": x.id, "v": x.attached})
 	}
-	end["shown"], end["state"], end["attached"] = shown, state, attached
+	end["shown"], end["state"], end["attached"], end["held"] = shown, state, attached, held
 	var rest c16Sink
 	kfmt.SetOutputSink(nil)
 	io.Copy(&rest, kfmt.GetOutputSink().(io.Reader))
@@ -374,8 +386,16 @@ func TestVerifC16HalRandom(t *testing.T) {
 	for i := 0; i < n; i++ {
 		s := c16Scenario{Drv: []c16DrvSpec{}, Prints: []c16Print{}, Unit: 1}
 		nd := rng.Intn(9)
+		pairs := rng.Intn(3) == 0 // several terminals and consoles, in every order relative to each other and to failing drivers
+		if pairs {
+			nd = 3 + rng.Intn(5)
+		}
 		for j := 0; j < nd; j++ {
 			d := c16DrvSpec{Kind: kinds[rng.Intn(3)], ProbeOk: rng.Intn(6) != 0, InitOk: rng.Intn(4) != 0}
+			if pairs {
+				d.Kind = kinds[rng.Intn(2)]
+				d.ProbeOk = rng.Intn(10) != 0
+			}
 			if rng.Intn(2) == 0 {
 				d.Order = fixed[rng.Intn(4)]
 			} else {
